@@ -22,6 +22,8 @@ pub struct Input {
     pub mode: Mode,
     /// compile with validate_layout_consistency(true)
     pub validate: bool,
+    /// defines passed through CompileArgs
+    pub defines: Vec<(String, String)>,
 }
 
 #[derive(Default)]
@@ -68,7 +70,8 @@ pub fn run_exec(input: &Input, cfg: Cfg, prefix: &[usize], expected: &[(usize, S
     })));
     let r = guard(|| {
         let files = [("main.rssl", input.src.as_str())];
-        Job { files: &files, entry: "main.rssl", defines: &[], cfg, mode: input.mode.clone(), validate_layout: input.validate }.run()
+        let defines: Vec<(&str, &str)> = input.defines.iter().map(|(k, v)| (k.as_str(), v.as_str())).collect();
+        Job { files: &files, entry: "main.rssl", defines: &defines, cfg, mode: input.mode.clone(), validate_layout: input.validate }.run()
     });
     vc::set_chooser(None);
     let s = st.borrow();
@@ -159,8 +162,9 @@ impl<'a> Explorer<'a> {
 
 fn replay_text(input: &Input, cfg: Cfg, prefix: &[usize]) -> String {
     format!(
-        "kind: schedule\nvalidate: {}\ncfg: {}\nmode: {}\nchoices: {}\nname: {}\n=====\n{}",
+        "kind: schedule\nvalidate: {}\ndefines: {}\ncfg: {}\nmode: {}\nchoices: {}\nname: {}\n=====\n{}",
         input.validate,
+        input.defines.iter().map(|(k, v)| format!("{}\u{1}{}", k, v)).collect::<Vec<_>>().join("\u{2}"),
         cfg.name(),
         match &input.mode {
             Mode::All => "all".to_string(),
@@ -178,7 +182,7 @@ fn replay_text(input: &Input, cfg: Cfg, prefix: &[usize]) -> String {
 
 pub fn inputs() -> Vec<Input> {
     let mut v = Vec::new();
-    let mut add = |name: &str, mode: Mode, src: &str| v.push(Input { name: name.to_string(), src: src.to_string(), mode, validate: name.starts_with("layout-") });
+    let mut add = |name: &str, mode: Mode, src: &str| v.push(Input { name: name.to_string(), src: src.to_string(), mode, validate: name.starts_with("layout-"), defines: Vec::new() });
     add(
         "names-overloads-namespaces",
         Mode::NoPipeline,
@@ -459,6 +463,38 @@ Pipeline P { ComputeShader = CSMAIN; }
     ] {
         add(name, Mode::NoPipeline, src);
     }
+    // diagnostics located inside pasted tokens / macro expansions / included text
+    for (name, src) in [
+        ("rejected-undeclared-pasted-identifier", "#define CAT(a, b) a ## b\nfloat f() { return CAT(un, known) + CAT(other, name); }\n"),
+        ("rejected-bad-paste", "#define CAT(a, b) a ## b\nfloat f() { return CAT(+, ;) 1.0; }\n"),
+        ("rejected-in-second-paste", "#define CAT(a, b) a ## b\nfloat CAT(g, 1)() { return 1.0; }\nfloat f() { return CAT(g, 1)() + CAT(g, 2)(); }\n"),
+    ] {
+        add(name, Mode::NoPipeline, src);
+    }
+    // the same user semantic spelled with different case in two stages (keys of the interpolator maps)
+    add(
+        "interpolator-semantics-differing-in-case",
+        Mode::All,
+        r#"
+void VSMAIN(uint vid : SV_VertexID, out float4 o_pos : SV_Position, out float2 o_uv : TexCoord, out float4 o_colour : Colour, out float o_n : NORMAL) {
+    o_pos = float4(0, 0, 0, 1); o_uv = float2(0.5f, 0.5f); o_colour = float4(1, 1, 1, 1); o_n = 1.0;
+}
+float4 PSMAIN(float2 i_uv : TEXCOORD, float4 i_colour : COLOUR, float i_n : Normal) : SV_Target0 { return float4(i_uv, 0, 0) + i_colour + i_n; }
+Pipeline P { VertexShader = VSMAIN; PixelShader = PSMAIN; }
+"#,
+    );
+    // define lists handed to compile(): several entries, one name under two spellings, several invalid entries
+    let prog = "#ifndef SCALE\n#define SCALE 1.0\n#endif\nfloat f(float x) { return x * SCALE + OFFSET + BIAS; }\n";
+    let lists: [(&str, &[(&str, &str)]); 5] = [
+        ("defines-three", &[("SCALE", "0.5"), ("OFFSET", "2.0"), ("BIAS", "3.0")]),
+        ("defines-repeated-name", &[("SCALE", "0.5"), ("OFFSET", "2.0"), ("SCALE", "0.25"), ("BIAS", "1.0")]),
+        ("defines-object-and-function-like-spelling", &[("SCALE", "0.5"), ("SCALE(x)", "(x*2.0)"), ("OFFSET", "2.0"), ("BIAS", "1.0")]),
+        ("defines-two-invalid", &[("1BAD", "1"), ("OFFSET", "2.0"), ("2BAD(", "2"), ("BIAS", "1.0")]),
+        ("defines-referring-to-each-other", &[("OFFSET", "BIAS"), ("BIAS", "SCALE"), ("SCALE", "4.0")]),
+    ];
+    for (name, l) in lists {
+        v.push(Input { name: name.to_string(), src: prog.to_string(), mode: Mode::NoPipeline, validate: false, defines: l.iter().map(|(a, b)| (a.to_string(), b.to_string())).collect() });
+    }
     // the repository's own basic inputs
     let dir = format!("{}/tests/basic", repo_root());
     if let Ok(rd) = std::fs::read_dir(&dir) {
@@ -467,8 +503,8 @@ Pipeline P { ComputeShader = CSMAIN; }
         for p in files {
             if let Ok(src) = std::fs::read_to_string(&p) {
                 let name = format!("tests/basic/{}", p.file_name().unwrap().to_string_lossy());
-                v.push(Input { name: name.clone(), src: src.clone(), mode: Mode::All, validate: false });
-                v.push(Input { name: format!("{}+layout-validation", name), src, mode: Mode::All, validate: true });
+                v.push(Input { name: name.clone(), src: src.clone(), mode: Mode::All, validate: false, defines: Vec::new() });
+                v.push(Input { name: format!("{}+layout-validation", name), src, mode: Mode::All, validate: true, defines: Vec::new() });
             }
         }
     }
@@ -555,6 +591,35 @@ pub fn run(ctx: &Ctx) -> i32 {
     let schedules = r.acc.evals;
     rep.absorb("deviation_subtrees", r);
 
+    // ---- hash functions: the result does not depend on the hash function of the containers (lookups of key types
+    // whose Hash disagrees with their Eq do; every iteration order also changes at once)
+    {
+        let r = run_par(ctx, jobs.len() as u64 * 2, 1, |idx, acc| {
+            let (i, cfg) = jobs[(idx / 2) as usize];
+            let mode = 1 + (idx % 2) as u8;
+            let Some((reference, _)) = refs.get(&((idx / 2) as usize)) else { return };
+            acc.evals += 1;
+            vc::set_hash_mode(mode);
+            let x = run_exec(&ins[i], cfg, &[], &[]);
+            vc::set_hash_mode(0);
+            match x {
+                Ok(x) => {
+                    if &x.result != reference {
+                        acc.violation(Violation {
+                            signature: format!("hash-function-dependent|{}", if mode == 1 { "all-keys-collide" } else { "second-hash-function" }),
+                            detail: format!("{} [{}]: with {} the result differs from the default hash function: {}", ins[i].name, cfg.name(), if mode == 1 { "a hash function under which all keys collide (lookups rely on Eq alone)" } else { "a second hash function" }, first_diff(reference, &x.result)),
+                            replay: format!("hashmode: {}\n{}", mode, replay_text(&ins[i], cfg, &[])),
+                        });
+                    } else {
+                        acc.outcome(&("hash-mode", mode, ins[i].name.clone(), cfg));
+                    }
+                }
+                Err(e) => acc.count(&format!("hash_mode_run_diverged|{}", one_line(&e, 40))),
+            }
+        });
+        rep.absorb("hash_functions", r);
+    }
+
     // ---- history: a compile is a pure function of its inputs, also after other compiles on the same thread
     {
         let hs = history_inputs();
@@ -627,6 +692,8 @@ fn history_inputs() -> Vec<HInput> {
         h("err-in-include-depth-3-lexer", vec![("main.rssl", "#include \"a.rssl\"\n"), ("a.rssl", "#include \"b.rssl\"\n"), ("b.rssl", "#include \"c.rssl\"\n"), ("c.rssl", "float g() { return `; }\n")], Mode::NoPipeline),
         h("err-macro-arguments-never-end", vec![("main.rssl", "#define F(x) x\nint a = F(1;\n")], Mode::NoPipeline),
         h("err-backend-msl-double", vec![("main.rssl", "RWByteAddressBuffer g_out;\n[numthreads(1, 1, 1)]\nvoid CSMAIN() { double d = 1.0L; g_out.Store(0, (uint)d); }\nPipeline P { ComputeShader = CSMAIN; }\n")], Mode::All),
+        h("err-undeclared-pasted-identifier", vec![("main.rssl", "#define CAT(a, b) a ## b\nfloat f() { return CAT(un, known); }\n")], Mode::NoPipeline),
+        h("ok-pasted-identifiers", vec![("main.rssl", "#define CAT(a, b) a ## b\nfloat CAT(g, 1)() { return 1.0; }\nfloat f() { return CAT(g, 1)(); }\n")], Mode::NoPipeline),
         h("err-pipeline-unknown-entry", vec![("main.rssl", "Pipeline P { ComputeShader = nothing; }\n")], Mode::All),
     ]
 }
@@ -667,6 +734,33 @@ fn check_history(a: &HInput, n: usize, b: &HInput, cfg: Cfg, acc: &mut Acc) {
 }
 
 pub fn replay(ctx: &Ctx, body: &str) -> i32 {
+    if let Some(rest) = body.strip_prefix("hashmode: ") {
+        let (m, rest) = rest.split_once('\n').unwrap_or(("1", ""));
+        let mode: u8 = m.trim().parse().unwrap_or(1);
+        let Some((head, src)) = rest.split_once("\n=====\n") else { return 2 };
+        let get = |k: &str| head.lines().find_map(|l| l.strip_prefix(k)).unwrap_or("").trim().to_string();
+        let defines: Vec<(String, String)> = get("defines: ").split('\u{2}').filter(|x| !x.is_empty()).filter_map(|x| x.split_once('\u{1}')).map(|(a, b)| (a.to_string(), b.to_string())).collect();
+        let mode_s = get("mode: ");
+        let input = Input {
+            name: "replay".into(),
+            src: src.to_string(),
+            mode: match mode_s.as_str() { "all" => Mode::All, "nopipe" => Mode::NoPipeline, o => Mode::Named(o.trim_start_matches("named ").to_string()) },
+            validate: get("validate: ") == "true",
+            defines,
+        };
+        let cfg = Cfg::from_name(&get("cfg: ")).unwrap_or(Cfg::Dx);
+        let mut acc = Acc::default();
+        let a = run_exec(&input, cfg, &[], &[]);
+        vc::set_hash_mode(mode);
+        let b = run_exec(&input, cfg, &[], &[]);
+        vc::set_hash_mode(0);
+        if let (Ok(a), Ok(b)) = (a, b) {
+            if a.result != b.result {
+                acc.violation(Violation { signature: "hash-function-dependent".into(), detail: first_diff(&a.result, &b.result), replay: String::new() });
+            }
+        }
+        return finish_replay(ctx, &acc);
+    }
     if body.starts_with("kind: history") {
         let mut acc = Acc::default();
         let get = |k: &str| body.lines().find_map(|l| l.strip_prefix(k)).unwrap_or("").trim().to_string();
@@ -687,7 +781,11 @@ pub fn replay(ctx: &Ctx, body: &str) -> i32 {
     let mut mode = Mode::NoPipeline;
     let mut choices = Vec::new();
     let mut validate = false;
+    let mut defines: Vec<(String, String)> = Vec::new();
     for l in head.lines() {
+        if let Some(v) = l.strip_prefix("defines: ") {
+            defines = v.split('\u{2}').filter(|x| !x.is_empty()).filter_map(|x| x.split_once('\u{1}')).map(|(a, b)| (a.to_string(), b.to_string())).collect();
+        }
         if let Some(v) = l.strip_prefix("validate: ") {
             validate = v.trim() == "true";
         }
@@ -703,7 +801,7 @@ pub fn replay(ctx: &Ctx, body: &str) -> i32 {
             choices = v.split(',').filter_map(|c| c.trim().parse().ok()).collect();
         }
     }
-    let input = Input { name: "replay".into(), src: src.to_string(), mode, validate };
+    let input = Input { name: "replay".into(), src: src.to_string(), mode, validate, defines };
     let mut acc = Acc::default();
     let reference = run_exec(&input, cfg, &[], &[]);
     let a = run_exec(&input, cfg, &choices, &[]);
